@@ -52,8 +52,19 @@ pub fn guarded<T, F: FnOnce() -> T>(f: F) -> Option<T> {
   catch_unwind(AssertUnwindSafe(f)).ok()
 }
 
+thread_local! { static LAST_PANIC: std::cell::RefCell<String> = std::cell::RefCell::new(String::new()); }
+/// the message of the last panic caught on this thread (attribution of known findings only)
+pub fn last_panic() -> String { LAST_PANIC.with(|c| c.borrow().clone()) }
+
 pub fn silence_panics() {
-  std::panic::set_hook(Box::new(|_| {}));
+  let show = std::env::var("HPX_PANIC_LOC").is_ok();
+  std::panic::set_hook(Box::new(move |info| {
+    let msg = if let Some(s) = info.payload().downcast_ref::<&str>() { s.to_string() } else if let Some(s) = info.payload().downcast_ref::<String>() { s.clone() } else { String::from("?") };
+    let msg: String = msg.chars().take(120).collect();
+    LAST_PANIC.with(|c| *c.borrow_mut() = msg);
+    // development aid: where do the panics of the code under test come from
+    if show { if let Some(l) = info.location() { eprintln!("PANIC-AT {}:{}", l.file(), l.line()); } }
+  }));
 }
 
 pub struct Out {
